@@ -195,7 +195,19 @@ fn run(case: &str) -> String {
                 })
                 .collect();
             v.sort();
-            format!(" S:{}", v.join("+"))
+            // ... and, under the name as it was reported (not canonicalised), what the file holds: a reported member has to
+            // hold the content of that member
+            let mut nv: Vec<String> = r2
+                .iter()
+                .filter_map(|r| {
+                    let t = tdir.as_ref()?;
+                    let rel = r.strip_prefix(&format!("{}/", t.to_string_lossy()))?;
+                    let d = std::fs::read(r).ok()?;
+                    Some(format!("{}:{}:{}", hex(rel.as_bytes()), d.len(), hash(&d)))
+                })
+                .collect();
+            nv.sort();
+            format!(" S:{} N:{}", v.join("+"), nv.join("+"))
         }
     };
     format!("R:{}{} F:{} X:{}", rp.join("+"), second, fs.join("+"), escaped + outside)
